@@ -61,15 +61,12 @@ def run_case(case, ci):
         for t in tracers:
             st.enter_context(t.tracing_enabled())
         def body():
-            for em in case["tops"]:
-                CUR.append(em)
+            for top in case["tops"]:
                 try:
-                    pyc.exec("x = 0", {}, {})
+                    run_acts([top])
                     raised.append(False)
                 except RuntimeError:
                     raised.append(True)
-                finally:
-                    CUR.pop()
                 flags.append(read_switches())
         if case.get("worker"):
             import threading
